@@ -248,16 +248,44 @@ fn run_history(ops: &[Op], mut on_query: impl FnMut(&Live, &Request, &Obs, usize
 
 fn engine_level(r: &mut Rng, sm: &mut Summary) {
     // batch vs piecewise list loading; queries before/after resources; reload
-    let mut lines: Vec<String> = (0..r.range(3, 10)).map(|_| gen::rule(r, true)).collect();
+    // (half of the lists from the list grammar: sibling groups with twins that differ only in their tag)
+    let mut lines: Vec<String> = if r.chance(1, 2) { let n = r.range(3, 10); gen::rule_list(r, n, true) } else { (0..r.range(3, 10)).map(|_| gen::rule(r, true)).collect() };
     for _ in 0..r.range(1, 4) {
         let host = r.pick(gen::HOSTS);
         lines.push(match r.below(4) { 0 => format!("{}##.ad-{}", host, r.pick(gen::VOCAB)), 1 => format!("##.{}", r.pick(gen::VOCAB)), 2 => format!("{}#@#.{}", host, r.pick(gen::VOCAB)), _ => format!("###{}-box", r.pick(gen::VOCAB)) });
     }
-    let whole = Engine::from_rules_parametrised(lines.iter(), Default::default(), true, false);
+    // a rule and its tag-only twin next to each other (the tagged rules of an engine are kept in one
+    // vector, in load order)
+    if r.chance(1, 3) {
+        let p = gen::pattern(r);
+        if !p.is_empty() {
+            let (t1, t2) = if r.chance(1, 2) { ("t1", "t2") } else { ("t2", "t1") };
+            lines.push(format!("{}$tag={}", p, t1));
+            lines.push(format!("{}$tag={}", p, t2));
+        }
+    }
+    // sometimes the cosmetic lines first (a cosmetic-only first batch), sometimes last
+    match r.below(3) {
+        0 => lines.sort_by_key(|l| !l.contains("##") && !l.contains("#@#")),
+        1 => lines.sort_by_key(|l| l.contains("##") || l.contains("#@#")),
+        _ => {}
+    }
+    let mut whole = Engine::from_rules_parametrised(lines.iter(), Default::default(), true, false);
+    // piecewise: 1-4 batches, each through one of FilterSet's entry points
     let mut fs = adblock::FilterSet::new(true);
-    let cut = r.below(lines.len() + 1);
-    fs.add_filters(lines[..cut].iter(), Default::default());
-    fs.add_filters(lines[cut..].iter(), Default::default());
+    let nb = r.range(1, 4);
+    let mut cuts: Vec<usize> = (0..nb - 1).map(|_| r.below(lines.len() + 1)).collect();
+    cuts.push(0);
+    cuts.push(lines.len());
+    cuts.sort();
+    for w in cuts.windows(2) {
+        let batch = &lines[w[0]..w[1]];
+        match r.below(3) {
+            0 => { fs.add_filters(batch.iter(), Default::default()); }
+            1 => { fs.add_filter_list(&batch.join("\n"), Default::default()); }
+            _ => { for l in batch { let _ = fs.add_filter(l, Default::default()); } }
+        }
+    }
     let mut piecewise = Engine::from_filter_set(fs, false);
     // history on the piecewise engine: queries, tags on/off, reload of its own bytes
     for _ in 0..r.range(0, 5) {
@@ -271,6 +299,10 @@ fn engine_level(r: &mut Rng, sm: &mut Summary) {
         let bytes = piecewise.serialize_raw().unwrap();
         piecewise.deserialize(&bytes).unwrap();
     }
+    // the tag set in force at query time: installed on both engines AFTER the history and the reload
+    let final_tags: &[&str] = match r.below(5) { 0 => &["t1"], 1 => &["t2"], 2 => &["t1", "t2"], 3 => &["t3", "t2"], _ => &[] };
+    whole.use_tags(final_tags);
+    if r.chance(1, 2) { piecewise.use_tags(final_tags) } else { piecewise.enable_tags(final_tags) }
     for _ in 0..4 {
         let url = if r.chance(1, 2) { { let k = r.below(lines.len()); gen::url_for(r, &lines[k]) } } else { gen::url(r) }.replace('*', "1");
         let Ok(req) = Request::new(&url, "https://a.com/page", r.pick(&["script", "document", "image"])) else { continue };
@@ -279,7 +311,7 @@ fn engine_level(r: &mut Rng, sm: &mut Summary) {
         let (a, b) = (whole.check_network_request(&req), piecewise.check_network_request(&req));
         // removeparam rules are not serialized (C08 finding F8): skip rewritten_url after a reload
         if (a.matched, a.important, a.exception.is_some(), a.redirect.clone()) != (b.matched, b.important, b.exception.is_some(), b.redirect.clone()) {
-            sm.failure(None, "engine built from the whole list and engine built piecewise + history disagree", json!({"kind": "engine", "rules": lines, "url": url}));
+            sm.failure(None, &format!("engine built from the whole list and engine built piecewise + history disagree under the tags {:?}", final_tags), json!({"kind": "engine", "rules": lines, "url": url, "tags": final_tags}));
         }
         let page = format!("https://{}/", r.pick(gen::HOSTS));
         let (ca, cb) = (whole.url_cosmetic_resources(&page), piecewise.url_cosmetic_resources(&page));
@@ -427,7 +459,9 @@ fn main() {
                 cs.stat("history_with_optimize_state_not_compared");
             }
         }
-        engine_level(&mut r, &mut sm);
+        for _ in 0..4 {
+            engine_level(&mut r, &mut sm);
+        }
     }
     cs.finish();
     sm.write(&a.out, &cs);
